@@ -18,8 +18,8 @@ var (
 
 // N: Calculates the Merkle root from integers.
 func N(v []types.ByteSequence, hashFunc func(types.ByteSequence) types.OpaqueHash) types.ByteSequence {
-	// [[]] should result zero hash
-	if len(v) == 0 || v[0] == nil {
+	// only the empty sequence gives the zero hash; a nil element is the empty blob
+	if len(v) == 0 {
 		// H0 - return zero hash as bytes
 		return types.ByteSequence(zeroHash[:])
 	} else if len(v) == 1 {
@@ -47,8 +47,8 @@ func N(v []types.ByteSequence, hashFunc func(types.ByteSequence) types.OpaqueHas
 
 // Mb: Well-balanced binary Merkle function
 func Mb(v []types.ByteSequence, hashFunc func(types.ByteSequence) types.OpaqueHash) types.OpaqueHash {
-	// [[]] should go to N
-	if len(v) == 1 && v[0] != nil {
+	// a single element is hashed, whether it is empty (nil) or not
+	if len(v) == 1 {
 		return hashFunc(v[0])
 	} else {
 		// N returns ByteSequence, convert to OpaqueHash
